@@ -218,6 +218,12 @@ impl<'a> Evaluator<'a> {
             ast::Expr::BinOp(a, op, b) => {
                 let a_value = self._const_eval(a)?;
                 let b_value = self._const_eval(b)?;
+                if op.is_undefined_for(&a_value, &b_value) {
+                    return Err(self.emitter.emit(error!(
+                        message("division by zero in constant expression"),
+                        primary(b.span, "divisor is zero"),
+                    )));
+                }
                 return Ok(op.const_eval(a_value, b_value));
             },
 
